@@ -139,6 +139,17 @@ func (ex *Exec) heapRead(st *State, tkey, ref, prefix string, sh *Shape, t types
 		}
 		out.Kids = append(out.Kids, ex.heapRead(st, tkey, ref, p, k, k.T))
 	}
+	// structural facts of containers read from memory
+	if ex.bound == 0 {
+		switch sh.Kind {
+		case "slice":
+			ex.eng.smt.addAx(out.Kids[0].S, "(<= 0 "+out.Kids[0].S+")")
+		case "map":
+			ex.eng.smt.addAx(out.Kids[1].S, "(<= 0 "+out.Kids[1].S+")")
+		case "any":
+			ex.eng.smt.addAx(out.Kids[0].S, "(and (<= 0 "+out.Kids[0].S+") (<= "+out.Kids[0].S+" 8))")
+		}
+	}
 	return out
 }
 
@@ -207,7 +218,7 @@ func (ex *Exec) heapWrite(st *State, tkey, ref, prefix string, sh *Shape, v *Val
 			s = ex.freshLeaf(sh, "mismatch")
 		}
 		st.heap[key] = ex.eng.smt.define("H_"+key, "(Array Int "+sh.Leaf+")", "(store "+arr+" "+ref+" "+s+")")
-		ex.noteHeapWrite(key)
+		ex.noteHeapWriteRef(key, ref)
 		return
 	}
 	for i, k := range sh.Kids {
@@ -228,6 +239,14 @@ func (ex *Exec) heapWrite(st *State, tkey, ref, prefix string, sh *Shape, v *Val
 func (ex *Exec) noteHeapWrite(key string) {
 	for _, r := range ex.recs {
 		r.heap[key] = true
+		r.addRef(key, "*")
+	}
+}
+
+func (ex *Exec) noteHeapWriteRef(key, ref string) {
+	for _, r := range ex.recs {
+		r.heap[key] = true
+		r.addRef(key, ref)
 	}
 }
 
@@ -257,6 +276,15 @@ func (ex *Exec) readVar(st *State, obj types.Object) *Val {
 	// lazily created entry value
 	if v, ok := ex.init[obj]; ok {
 		return v
+	}
+	if e, ok := ex.eng.constVars[obj]; ok {
+		if tv, ok := ex.eng.constVarInfo[obj].Types[e]; ok && tv.Value != nil {
+			ex.assumption("package variable " + obj.Pkg().Name() + "." + obj.Name() + " is treated as the constant it is initialised with (never assigned in non-test code)")
+			v := ex.constVal(tv.Value, obj.Type())
+			v.C = nil
+			ex.init[obj] = v
+			return v
+		}
 	}
 	v := ex.freshVal(obj.Type(), obj.Name())
 	ex.init[obj] = v
